@@ -30,7 +30,7 @@ OPEN = {
 	'C09': 'The whole element is a theorem (`element_roundtrip`, `Proofs/ElementRoundtrip.lean`): a value and any number of parameters with pairwise different canonical keys and ASCII values free of double quotes parse back in order; the proof carries quote parity across parameters, so no `;` or `,` inside a quoted value cuts and no parameter merges with its neighbour. The list clause is `list_roundtrip` (split of join gives back the composed elements, each parses to its element). Open as theorems: RFC 2231 continuations and RFC 5987 extended values - tied by correspondence for the four element classes.',
 	'C10': 'The whole URI is a theorem since `Props/C10Whole.lean` (`parse_compose`, `compose_parse_compose`): the inner cuts (userinfo, host:port, path), the outer cuts (`uri_cuts`) and the record (class by scheme, port default or explicit) assembled for absolute URIs with a registered-name host. The host position has its own theorems since the F65 repair (`Props/C10Host.lean`): `host_no_leak` (no delimiter of a host text reaches the composed form unescaped, for every text) and `unquoteHost_quote` (an ASCII registered name, delimiters and blanks included, comes back from its composed form). Outside it: IPv4/IPv6 literals and IDN hosts (socket / idna: oracle only), relative references and URIs without authority (correspondence and oracle).',
 	'C11': 'The RFC clause is a theorem for `abspath()` itself (`abspath_eq_rfc`, `normalize_path_rfc`; `Proofs/Rfc.lean`, `Proofs/RfcAbspath.lean`): the buffer-rewriting loop of RFC 3986 §5.2.4 is shown to be a stack machine on segments, the segment loop of `abspath` (`abspathCore`, whose stack also holds, and may pop, the root segment) is related to it, and the root that the loop may have popped is what `abspath` restores since the F60 repair. Trusted there: the transcription of the RFC text.',
-	'C12': 'Degenerate references ("?", "#", "//", "s:") are outside the quantifier.',
+	'C12': 'The whole statement is one theorem since `Props/C12Whole.lean` (`join_eq_rfc`, `toRef_rfcRecord`, `join_eq_rfc_scheme`): `join` = `normalize` of the record RFC 3986 5.2.2 prescribes, for every normalised base and every reference record the RFC grammar allows (a reference with authority has an empty or rooted path). Outside the theorem: the parse of the reference text into the record (C10 / correspondence), degenerate references ("?", "#", "//", "s:": defined-but-empty components that httoop cannot represent), rootless scheme-qualified references with dot segments (F59) and "://" in a later segment (F58).',
 	'C13': 'The unguarded statement is false of the code (F1); `unquote_quote_fixed` proves it for the `%02X` variant, `c13_witness` exhibits the failure.',
 	'C14': 'zlib itself is a parameter. JSON and message/http: oracle on the real code. The form codec is the theorem of C13 (`form_roundtrip_partial`, guard F1) and is exercised here through the codec and through Body.encode/decode.',
 	'C15': 'Partial by nature: time zone, DST and locale are runtime environment. The model has no such input (that is the claim); the correspondence runs the real code in child processes under 6 zones × the installed locales and requires the one model answer. The asctime and RFC 850 forms are theorems as well (`asctime_roundtrip`, `rfc850_roundtrip` for the years 1970-2068 a two-digit year can name).',
